@@ -133,8 +133,7 @@ def classifyVersionLine (isClient : Bool) (line : Bytes) : VersionLine :=
     let v := stripCR line
     if isPrefixOf (strBytes "SSH-2.0-") v || isPrefixOf (strBytes "SSH-1.99-") v then
       if Gen.C03.MAX_VERSION_LINE_LEN < v.length then .reject .proto
-      else if v.any (· ≥ 128) then .reject .proto       -- `not version.isascii()`: 'Invalid version'
-      else .version v
+      else .version v      -- non-ASCII bytes are kept (decoded with `backslashreplace` for the extra info only)
     else if isClient && !isPrefixOf (strBytes "SSH-") v then .banner
     else .reject .proto        -- ProtocolNotSupported is reported in the same class by the harness
 
